@@ -207,18 +207,24 @@ func init() {
 	core.Register(&core.Property{
 		ID:    "C20",
 		Level: "exploration",
-		Rule: "typed queries from the C01 generator (every operator, set functions, dotted and map-element symbols, null tests, count / isEmpty incl. sub-queries whose inner predicate is generated over the linked store, constant, or over names both stores know, half of them with an inner sort clause) plus 0-3 sort fields (6-9 on a quarter of the queries: fields beyond the five a scan honours are references all the same); the referenced symbol set R is known from the generator structure. " +
+		Rule: "typed queries from the C01 generator (every operator, set functions, dotted and map-element symbols, null tests, count / isEmpty incl. sub-queries whose inner predicate is generated over the linked store, constant, or over names both stores know, half of them with an inner sort clause) plus 0-3 sort fields (6-9 on a quarter of the queries: fields beyond the five a scan honours are references all the same); the referenced symbol set R is known from the generator structure. Part (b): a parent grants its symbols to two child stores, one of which then publishes names the parent keeps private: public for exactly the stores that inherited or published the name (IsPublicSymbol and validation of a filter over it through parent, child and sibling). " +
 			"For each query: a store with every symbol public must accept; for every r in R that can be non-public a fresh store where exactly r is non-public (registered through AddSetSymbol / AddEntitySymbol / an un-published map / an un-published dotted symbol) must reject with an error naming r; " +
 			"random assignments must reject iff R meets the non-public set and name a referenced non-public symbol. Every third query is validated against a child store that was granted the parent's symbols and their visibility (GrantSymbols) instead of the store itself. Map elements follow their map. A reflection walk over the typed tree (not using Accept) lists the node kinds produced; the run is inconclusive unless every typed node kind occurred. " +
 			"non-trivial = distinct (query, assignment) pairs with at least two referenced symbols",
 		Assumptions: []string{"names inside a sub-query (predicate at any depth, sort clause) are judged literally: they must be public for the store the query is validated against, a name that store does not know is not public for it", "id, the path-prefixed field and the fk field can only be registered public through the public API"},
 		Plan: func(tier core.Tier, seed int64) int {
 			if tier == core.Thorough {
-				return 40000
+				return 40000 + c20GrantCases*16
 			}
-			return 160
+			return 160 + c20GrantCases
 		},
-		Run: runC20,
+		Run: func(c *core.Ctx, idx int) {
+			if n := map[bool]int{false: 160, true: 40000}[c.Tier == core.Thorough]; idx >= n {
+				c20GrantCase(c, idx-n)
+				return
+			}
+			runC20(c, idx)
+		},
 		Promises: func(core.Tier) map[string][]string {
 			return map[string][]string{"node_kind": c20NodeKinds, "position": {"sort-field", "sort-field beyond the fifth", "set-function", "in-subject", "between-subject", "contains-subject", "null-test", "subquery-set", "map-element", "dotted", "nested-depth-3", "inside-subquery"}}
 		},
